@@ -44,6 +44,7 @@ import ast
 import itertools
 
 from ..dataflow import defs_of, reaching_defs
+from ..facts import atoms as fact_atoms
 from ..model import enclosing_stmt, parent, unparse
 from ..selftest import V
 from ._util_E import (
@@ -115,6 +116,23 @@ def is_invalid(prog, f, e) -> bool:
 
 def is_member(prog, f, e, member) -> bool:
     return isinstance(e, ast.Attribute) and e.attr == member and prog.resolve_expr(f.module, e.value) == DATATYPE
+
+
+def state_atom(prog, f, e, truth, member, var=None):
+    """What the atom `e` (known to evaluate to `truth`) says about `<var>.data_type` and DataType.<member>:
+    True = equal, False = different, None = the atom is not such a test.  Independent of the spelling: either operand
+    order, `==`/`is`/`!=`/`is not`, `not (...)`, the data_type (or the member) read through a temporary; `var=None`
+    accepts the data_type of any object."""
+    for a, val in fact_atoms(e, truth):
+        if not (isinstance(a, ast.Compare) and len(a.ops) == 1 and isinstance(a.ops[0], (ast.Eq, ast.Is))):
+            continue
+        l, r = a.left, a.comparators[0]
+        for x, y in ((l, r), (r, l)):
+            x, y = deref(f, x), deref(f, y)
+            if isinstance(x, ast.Attribute) and x.attr == "data_type" and is_member(prog, f, y, member) \
+                    and (var is None or ktext(f, x) == f"{var}.data_type"):
+                return val
+    return None
 
 
 class Op:
@@ -422,8 +440,7 @@ def r3(ctx):
                 tn = g.nodes[tid]
                 if ll is not None and not any(x is tn.ast for x in ast.walk(ll[0].node)):
                     continue
-                if isinstance(e, ast.Compare) and len(e.ops) == 1 and isinstance(e.left, ast.Attribute) and e.left.attr == "data_type" and is_invalid(prog, f, e.comparators[0]) \
-                        and ((isinstance(e.ops[0], ast.NotEq) and truth) or (isinstance(e.ops[0], ast.Eq) and not truth)):
+                if state_atom(prog, f, e, truth, "INVALID", v) is False:
                     continue
                 extra.append(unparse(e))
         ctx.ob("R3", "inside the sweep, only the already-INVALID test may skip a child location", not extra, func=f, node=c, instance="invalidate:rec:guard",
@@ -458,10 +475,11 @@ def r6(ctx):
             it = deref(f, lb[0].iter)
             if isinstance(it, (ast.ListComp, ast.GeneratorExp, ast.SetComp)):
                 for gen in it.generators:
-                    for cond in gen.ifs:
-                        if isinstance(cond, ast.Compare) and isinstance(cond.ops[0], ast.Eq) and ppath in {x.id for x in ast.walk(cond) if isinstance(x, ast.Name)} \
-                                and any(isinstance(x, ast.Attribute) and x.attr == "path" for x in ast.walk(cond)):
-                            guarded = True
+                    for cond0 in gen.ifs:
+                        for cond, val in fact_atoms(cond0, True):
+                            if val and isinstance(cond, ast.Compare) and isinstance(cond.ops[0], ast.Eq) and ppath in {x.id for x in ast.walk(cond) if isinstance(x, ast.Name)} \
+                                    and any(isinstance(x, ast.Attribute) and x.attr == "path" for x in ast.walk(cond)):
+                                guarded = True
         ctx.ob("R6", f"`{o.base}.data_type = DataType.INVALID` only for data locations whose own path is the invalidated path", guarded, func=f, node=o.node,
                instance="invalidate_location:collateral",
                message=("S12: every data location stored at the node is marked INVALID, including the *related* locations that register_relation cross-registered there "
@@ -997,6 +1015,11 @@ VARIANTS = [
       "node.locations.get(location.deployment, {}).get(location.name, set())", "node.locations.get(location.deployment, {}).get(location.deployment, set())", "R3"),
     V("recursion passes the parent's path", FILE, f"{M}.invalidate_location", "self.invalidate_location(data_loc.location, data_loc.path)", "self.invalidate_location(data_loc.location, path)", "R3"),
     V("recursion only for primary children", FILE, f"{M}.invalidate_location", "if data_loc.data_type != DataType.INVALID:", "if data_loc.data_type == DataType.PRIMARY:", "R3"),
+    V("recursion only for primary children, operands swapped", FILE, f"{M}.invalidate_location", "if data_loc.data_type != DataType.INVALID:", "if DataType.PRIMARY == data_loc.data_type:", "R3"),
+    V("recursion only for children that are already INVALID (flipped and inverted)", FILE, f"{M}.invalidate_location", "if data_loc.data_type != DataType.INVALID:",
+      "if DataType.INVALID == data_loc.data_type:", "R3"),
+    V("recursion guarded by the state of another object", FILE, f"{M}.invalidate_location", "if data_loc.data_type != DataType.INVALID:",
+      "if DataType.INVALID != data_loc.location.data_type:", "R3"),
     V("recursion removed", FILE, f"{M}.invalidate_location",
       "if data_loc.data_type != DataType.INVALID:\n                self.invalidate_location(data_loc.location, data_loc.path)", "pass", "R3"),
     # ---- R4
@@ -1073,6 +1096,14 @@ VARIANTS = [
       "for loc in data_locations:\n            await loc.available.wait()\n            if loc.data_type == DataType.PRIMARY:\n                return loc",
       "for loc in data_locations:\n            await loc.available.wait()\n            if loc.data_type != DataType.PRIMARY:\n                continue\n            return loc", None),
     V("benign: children iterated with items()", FILE, f"{M}.invalidate_location", "for node_child in node.children.values():", "for _name, node_child in node.children.items():", None),
+    V("benign: cmpflip, INVALID test of the recursion with swapped operands", FILE, f"{M}.invalidate_location", "if data_loc.data_type != DataType.INVALID:",
+      "if DataType.INVALID != data_loc.data_type:", None),
+    V("benign: INVALID test of the recursion as a negated identity test through a temporary, guard clause", FILE, f"{M}.invalidate_location",
+      "if data_loc.data_type != DataType.INVALID:\n                self.invalidate_location(data_loc.location, data_loc.path)",
+      "state = data_loc.data_type\n            if DataType.INVALID is state:\n                continue\n            self.invalidate_location(data_loc.location, data_loc.path)", None),
+    V("benign: cmpflip of the PRIMARY tests of get_source_location", FILE, f"{MGR}.get_source_location", "if loc.data_type == DataType.PRIMARY:", "if DataType.PRIMARY == loc.data_type:", None, count=3),
+    V("benign: cmpflip of the INVALID filter", FILE, f"{MGR}.get_data_locations", "loc.data_type != DataType.INVALID", "DataType.INVALID != loc.data_type", None),
+    V("benign: cmpflip of the data_type filter of get", FILE, f"{M}.get", "loc.data_type != data_type", "data_type != loc.data_type", None),
     V("benign: S12 repaired with a path guard", FILE, f"{M}.invalidate_location",
       "data_loc.data_type = DataType.INVALID\n        node.valid_paths[location.deployment][location.name].discard(data_loc.path)",
       "if data_loc.path == path:\n            data_loc.data_type = DataType.INVALID\n            node.valid_paths[location.deployment][location.name].discard(data_loc.path)", None),
